@@ -358,6 +358,12 @@ func (d *driverCfg) runPhase(eng Engine, ph Phase, deadline time.Time, nextID *i
 		a.steps += int64(res.Steps)
 		a.wallUS += res.WallUS
 		for k, v := range res.Counters {
+			if strings.HasPrefix(k, "max:") {
+				if v > a.counters[k] {
+					a.counters[k] = v
+				}
+				continue
+			}
 			a.counters[k] += v
 		}
 		for _, f := range res.Foreign {
@@ -648,15 +654,15 @@ func (d *driverCfg) minimise(eng Engine, v *Result) *Result {
 }
 
 type replayFile struct {
-	Property  string  `json:"property"`
-	Class     string  `json:"class"`
-	Sig       string  `json:"sig"`
-	Msg       string  `json:"msg"`
-	BatchSeed uint64  `json:"verif_seed"`
-	RunSeed   uint64  `json:"run_seed"`
-	Tier      string  `json:"tier"`
-	Case      *Case   `json:"case"`
-	Detail    any     `json:"detail,omitempty"`
+	Property  string `json:"property"`
+	Class     string `json:"class"`
+	Sig       string `json:"sig"`
+	Msg       string `json:"msg"`
+	BatchSeed uint64 `json:"verif_seed"`
+	RunSeed   uint64 `json:"run_seed"`
+	Tier      string `json:"tier"`
+	Case      *Case  `json:"case"`
+	Detail    any    `json:"detail,omitempty"`
 }
 
 func (d *driverCfg) writeReplay(v *Result) string {
@@ -788,29 +794,29 @@ type evInfo struct {
 var evidenceInfo = map[string]evInfo{}
 
 var stdComponents = map[string]string{
-	"jsight-api-core":            "real code from /repo's working tree; os/sync/map-range call sites routed through simrt by the instrumenter",
-	"jsight-schema-core v0.2.0":  "real code (module cache copy), instrumented the same way",
-	"reggen, x/text, Go stdlib":  "real, not instrumented",
-	"kernel VFS":                 "real directory tree per worker; its content and timing are decided by the fault plan inside the mediated calls",
-	"sync.Mutex/RWMutex/Once":    "real primitives, called after the simulated scheduler's grant",
-	"sync.Pool":                  "stub: simulated pool (policy isolating/adversarial/random/fresh-only) except where a run says 'real'",
-	"Go map iteration order":     "stub: canonical order permuted by the run's map seed",
-	"goroutine scheduler":        "bypassed in concurrent runs: one runnable task at a time, chosen by the seeded scheduler",
-	"EACCES/EIO":                 "stubbed syscall result (cannot be produced on a real directory as root)",
-	"clock, network, timers":     "do not exist in the system",
+	"jsight-api-core":           "real code from /repo's working tree; os/sync/map-range call sites routed through simrt by the instrumenter",
+	"jsight-schema-core v0.2.0": "real code (module cache copy), instrumented the same way",
+	"reggen, x/text, Go stdlib": "real, not instrumented",
+	"kernel VFS":                "real directory tree per worker; its content and timing are decided by the fault plan inside the mediated calls",
+	"sync.Mutex/RWMutex/Once":   "real primitives, called after the simulated scheduler's grant",
+	"sync.Pool":                 "stub: simulated pool (policy isolating/adversarial/random/fresh-only) except where a run says 'real'",
+	"Go map iteration order":    "stub: canonical order permuted by the run's map seed",
+	"goroutine scheduler":       "bypassed in concurrent runs: one runnable task at a time, chosen by the seeded scheduler",
+	"EACCES/EIO":                "stubbed syscall result (cannot be produced on a real directory as root)",
+	"clock, network, timers":    "do not exist in the system",
 }
 
 // ---------- known findings ----------
 
 type knownEntry struct {
-	Property string `json:"property"`
-	Status   string `json:"status"` // known | fixed
-	Class    string `json:"class"`
-	SigHas   string `json:"sig_contains"`
-	Site     string `json:"site,omitempty"` // seam site the finding is attributed to (map-order findings)
+	Property  string   `json:"property"`
+	Status    string   `json:"status"` // known | fixed
+	Class     string   `json:"class"`
+	SigHas    string   `json:"sig_contains"`
+	Site      string   `json:"site,omitempty"`       // seam site the finding is attributed to (map-order findings)
 	PoolSites []string `json:"pool_sites,omitempty"` // Get/Put site prefixes of the pools a pool finding is about
-	What     string `json:"what"`
-	Commit   string `json:"commit,omitempty"`
+	What      string   `json:"what"`
+	Commit    string   `json:"commit,omitempty"`
 }
 
 func loadKnown(path, prop string) []knownEntry {
